@@ -166,7 +166,7 @@ def classify(pid, desc):
             cls = "loop_invariant_base"
         elif "step" in desc or "preserved" in desc:
             cls = "loop_invariant_step"
-    if "decreases" in desc or "variant" in desc:
+    if "variant decreases" in desc:
         cls = "loop_variant"
     if "unwinding assertion" in desc:
         cls = "unwind"
